@@ -195,6 +195,7 @@ class SymbolKindTable:
                         % (name, phase_name,
                             repr(kind),
                             repr(tbl[name])))
+                    raise
                 else:
                     if tbl[name] != kind:
                         self._changed = True
